@@ -318,9 +318,9 @@ def af_rules(run, repo, tier):
         r3.ok('configuration')
 
     # ---- metadata: two runs, all builder calls, both byte orders ---------------------------------------------------
-    for bo, n_runs in (('little', 1), ('big', 3)):
-        wr = build(repo, ('P', 'I', 'S', 'D', 'T'), bo, 4, 3, n_runs, 'memory', 'the title')
-        cfg = f'byteorder={bo} runs={n_runs}'
+    for bo, n_runs, indirect in (('little', 1, False), ('big', 3, False), ('little', 2, True)):
+        wr = build(repo, ('P', 'I', 'S', 'D', 'T'), bo, 4, 3, n_runs, 'memory', 'the title', indirect=indirect)
+        cfg = f'byteorder={bo} runs={n_runs} mode={"indirect" if indirect else "direct"}'
         if wr.outcome[0] != 'return':
             r5.fail(f'builder [{cfg}]', loc(repo.func(BUILD, 'SqwBuilder.create')), {'outcome': wr.outcome}, key='builder')
             continue
@@ -366,7 +366,7 @@ def _decoded_content_rules(dec, sup, n_runs, cfg, repo, r4, r5):
             a = ex_.attrs
             if sqwfmt.scalar(rec['run_id']) != float(a['run_id'] + 1):
                 probs.append(f'run {k}: run_id on disk {sqwfmt.scalar(rec["run_id"])}, expected 1-based {a["run_id"] + 1}')
-            if sqwfmt.scalar(rec['filename']) != a['filename'] or sqwfmt.scalar(rec['filepath']) != a['filepath'] or sqwfmt.scalar(rec['emode']) != 1.0 \
+            if sqwfmt.scalar(rec['filename']) != a['filename'] or sqwfmt.scalar(rec['filepath']) != a['filepath'] or sqwfmt.scalar(rec['emode']) != float(a['emode'].value) \
                     or sqwfmt.scalar(rec['angular_is_degree']) is not False:
                 probs.append(f'run {k}: file name / mode / angle flag')
             disk_ok(rec['efix']['data'], a['efix'], 'meV', f'run {k} efix', probs)
